@@ -177,7 +177,8 @@ type Scheduler struct {
 	// goroutine is parked or done (needed only if operations spawn goroutines that outlive
 	// the spawner's next datastore call).
 	Strict bool
-	// Timeout bounds one Quiesce call (default 20s).
+	// Timeout bounds one Quiesce call without any progress event (default 120s); reaching it is
+	// an error (inconclusive), never a scheduling decision.
 	Timeout time.Duration
 
 	dumps   int64
@@ -334,18 +335,23 @@ func (sc *Scheduler) Release(c *Call, f Fault) {
 func (sc *Scheduler) Quiesce() ([]*Call, error) {
 	timeout := sc.Timeout
 	if timeout == 0 {
-		timeout = 20 * time.Second
+		timeout = 120 * time.Second
 	}
 	deadline := time.Now().Add(timeout)
 	timer := time.NewTimer(time.Hour)
 	defer timer.Stop()
-	wait := 100 * time.Microsecond
 	for {
+		// State is decided from events only: every operation's main goroutine reports when it
+		// parks in a datastore call and when it finishes.  No amount of elapsed time is ever
+		// taken to mean "parked".
 		sc.mu.Lock()
-		settled, childWaiting := true, false
+		settled, childWaiting, unfinished := true, false, false
 		for _, op := range sc.ops {
 			if op.state == msRunning {
 				settled = false
+			}
+			if op.state != msDone {
+				unfinished = true
 			}
 		}
 		for _, ci := range sc.parked {
@@ -353,48 +359,58 @@ func (sc *Scheduler) Quiesce() ([]*Call, error) {
 				childWaiting = true
 			}
 		}
+		nParked := len(sc.parked)
 		sc.mu.Unlock()
-		if settled && !sc.Strict {
-			return sc.parkedCalls(), nil
-		}
-		if settled || childWaiting || wait > 100*time.Microsecond {
-			// Two dumps in a row must agree and no goroutine may have signalled in between.
-			if sc.allBlocked() {
-				select {
-				case <-sc.wake:
-					continue
-				default:
-				}
-				runtime.Gosched()
+		// Nothing parked while something is unfinished is never quiescence: either a goroutine
+		// is still on its way to its next call, or the system under test is deadlocked (which
+		// ends in the timeout error below, with a goroutine dump).
+		if nParked > 0 || !unfinished {
+			if settled && !sc.Strict {
+				return sc.parkedCalls(), nil
+			}
+			// A main goroutine that waits for helper goroutines it spawned (ReleaseIPs: one per
+			// block) never reports "parked" itself.  Only then - a helper is parked while its
+			// main goroutine counts as running - goroutine states are inspected: quiescent iff
+			// every goroutine of every operation is blocked on another goroutine, in two
+			// consecutive dumps with no event in between.
+			if settled || childWaiting {
 				if sc.allBlocked() {
 					select {
 					case <-sc.wake:
 						continue
 					default:
 					}
-					// Nothing can have moved since the dumps: every goroutine of every
-					// operation was blocked on another goroutine.
-					return sc.parkedCalls(), nil
+					runtime.Gosched()
+					if sc.allBlocked() {
+						select {
+						case <-sc.wake:
+							continue
+						default:
+						}
+						return sc.parkedCalls(), nil
+					}
 				}
 			}
 		}
 		if time.Now().After(deadline) {
-			return nil, fmt.Errorf("memds: no quiescence after %v; goroutines:\n%s", timeout, allStacks())
+			return nil, fmt.Errorf("memds: no quiescence after %v (deadlock in the code under test, or an overloaded machine)\n%s", timeout, sc.DebugState())
 		}
+		// Wait for the next event.  The timer only re-polls the helper-goroutine case above (a
+		// helper's progress produces an event only when it parks again) and the deadline.
 		if !timer.Stop() {
 			select {
 			case <-timer.C:
 			default:
 			}
 		}
-		timer.Reset(wait)
+		poll := 50 * time.Millisecond
+		if childWaiting {
+			poll = 200 * time.Microsecond
+		}
+		timer.Reset(poll)
 		select {
 		case <-sc.wake:
-			wait = 100 * time.Microsecond
 		case <-timer.C:
-			if wait < 5*time.Millisecond {
-				wait *= 2
-			}
 		}
 	}
 }
@@ -409,6 +425,23 @@ func (sc *Scheduler) parkedCalls() []*Call {
 	}
 	sort.Slice(out, func(i, j int) bool { return out[i].ID < out[j].ID })
 	return out
+}
+
+// DebugState describes every operation and parked call plus a goroutine dump (diagnostics for
+// "deadlock" reports).
+func (sc *Scheduler) DebugState() string {
+	sc.mu.Lock()
+	var sb strings.Builder
+	for _, op := range sc.ops {
+		fmt.Fprintf(&sb, "op %s gid=%d state=%d crashed=%v done=%v\n", op.ID, op.mainGid, op.state, op.crashed, op.Done())
+	}
+	for _, ci := range sc.parked {
+		fmt.Fprintf(&sb, "parked %s child=%v\n", ci.id, ci.child)
+	}
+	fmt.Fprintf(&sb, "family=%v dumps=%d\n", sc.family, sc.dumps)
+	sc.mu.Unlock()
+	sb.WriteString(allStacks())
+	return sb.String()
 }
 
 // Trace returns a copy of the execution trace so far.
@@ -438,7 +471,7 @@ func (sc *Scheduler) Shutdown() error {
 	sc.mu.Unlock()
 	timeout := sc.Timeout
 	if timeout == 0 {
-		timeout = 20 * time.Second
+		timeout = 120 * time.Second
 	}
 	t := time.NewTimer(timeout)
 	defer t.Stop()
